@@ -3,6 +3,7 @@
 -/
 import OpwVerif.Drv.CollOps
 import OpwVerif.Rrt
+import OpwVerif.Cartesian
 namespace Opw.Drv
 open Opw Opw.Proto
 
@@ -106,5 +107,150 @@ def opRrtCancel : RM Res := do
     let n ← rN
     -- a path found within the 30 ms before the flag went up is legitimate
     pure { corr := "OK", preds := [], tags := [s!"finished-before-cancel={n}", "n=1"] }
+
+end Opw.Drv
+
+namespace Opw.Drv
+open Opw Opw.Proto
+
+def closeList2 {α β} (f : α → β → Bool) : List α → List β → Bool
+  | [], [] => true
+  | a :: as, b :: bs => f a b && closeList2 f as bs
+  | _, _ => false
+
+def rAPoses : RM (List (Iso Float × Nat)) := rList (do let p ← rIso; let f ← rN; pure (p, f))
+
+/-- `h_dense land #n steps… park stepM stepRad => #m (pose flags)…` -/
+def opHDense : RM Res := do
+  let land ← rIso
+  let steps ← rList rIso
+  let park ← rIso
+  let sm ← rF; let sr ← rF
+  expect "=>"
+  let out ← rAPoses
+  let model := withIntermediatePoses land steps park sm sr Float.ofNat
+  let ok := closeList2 (fun (a : Iso Float × Nat) (b : APose Float) => a.2 == b.flags && closeV3 1e-12 a.1.t b.pose.t && closeQuat 1e-12 a.1.q b.pose.q) out model
+  -- predicates: order land, (interp*, step)*, interp*, park with the right flags; interpolated translations on the segment
+  let originals := out.filter (fun (_, f) => f != flagLinInterp)
+  let wantOrig : List (Iso Float × Nat) := [(land, flagLand)] ++ steps.map (fun s => (s, flagTrace)) ++ [(park, flagPark)]
+  let okOrig := closeList (fun (a b : Iso Float × Nat) => a.2 == b.2 && closeV3 0.0 a.1.t b.1.t && closeQuatComp 0.0 a.1.q b.1.q) originals wantOrig
+  -- each interpolated pose lies on the segment between its neighbours among the originals
+  let rec segs : List (Iso Float × Nat) → Option (Iso Float) → List (Iso Float × Iso Float × Iso Float) → List (Iso Float × Iso Float × Iso Float)
+    | [], _, acc => acc
+    | (p, f) :: rest, prev, acc =>
+      if f == flagLinInterp then
+        let nxt := (rest.find? (fun (_, g) => g != flagLinInterp)).map (·.1)
+        match prev, nxt with
+        | some a, some b => segs rest prev (acc ++ [(p, a, b)])
+        | _, _ => segs rest prev acc
+      else segs rest (some p) acc
+  let offSeg := (segs out none []).find? (fun (p, a, b) =>
+    let ab := b.t.sub a.t
+    let ap := p.t.sub a.t
+    let l2 := ab.normSq
+    let tpar := if l2 > 0.0 then (V3.dot ap ab) / l2 else 0.0
+    let foot := a.t.add (ab.scale tpar)
+    !((p.t.sub foot).norm ≤ 1e-9 && tpar ≥ -1e-9 && tpar ≤ 1.0 + 1e-9))
+  pure (mkRes ok s!"densified poses differ: impl {out.length} model {model.length}"
+    [P "C12.dense_order" (okOrig, "land / steps / park do not appear in order with their flags"),
+     P "C12.dense_on_segment" (offSeg.isNone, "an interpolated pose is off the segment between the poses it interpolates")]
+    [s!"n={out.length}"])
+
+structure WP where
+  joints : J6 Float
+  flags : Nat
+  collides : Bool
+  compliant : Bool
+
+/-- `plan K from land #n steps park stepM stepRad maxCost coeff6 #depth #include #pool => ok #m (joints flags collides compliant)… | err | panic` -/
+def opPlan : RM Res := do
+  let k ← rKin
+  let from_ ← rJ6
+  let land ← rIso
+  let steps ← rList rIso
+  let park ← rIso
+  let sm ← rF; let sr ← rF; let maxCost ← rF
+  let coeff ← rJ6
+  let depth ← rN
+  let incl ← rB
+  let pool ← rN
+  expect "=>"
+  let tag ← next
+  if tag == "panic" then pure (panicRes "Cartesian::plan")
+  else if tag == "err" then pure { corr := "OK", tags := ["err", "n=0", s!"pool={pool}"] }
+  else
+    let wps ← rList (do let j ← rJ6; let f ← rN; let c ← rB; let l ← rB; pure (⟨j, f, c, l⟩ : WP))
+    let poses := withIntermediatePoses land steps park sm sr Float.ofNat
+    let cfg : CartCfg Float := ⟨maxCost, coeff, depth, incl⟩
+    -- split at the landing waypoint
+    let onb := wps.takeWhile (fun w => !(hasFlag w.flags flagLand))
+    let cart := wps.dropWhile (fun w => !(hasFlag w.flags flagLand))
+    let mut preds : List (String × Bool × String) := []
+    let bad := wps.find? (·.collides)
+    preds := preds ++ [P "C12.collision_free" (bad.isNone, s!"waypoint {bad.map (fun w => showJ6 w.joints)} is reported colliding by the same robot")]
+    let outl := wps.find? (fun w => !w.compliant)
+    preds := preds ++ [P "C12.limits" (outl.isNone, s!"waypoint {outl.map (fun w => showJ6 w.joints)} is outside the joint limits")]
+    preds := preds ++ [P "C12.starts_at_from" ((match wps.head? with | some w => bitEqJ6 w.joints from_ | none => false), s!"path starts at {(wps.head?).map (fun w => showJ6 w.joints)}, requested start {showJ6 from_}")]
+    preds := preds ++ [P "C12.onboarding_flags" (onb.all (fun w => w.flags == flagOnboarding) && !cart.isEmpty, "waypoints before the landing are not flagged ONBOARDING, or there is no landing waypoint")]
+    -- landing, stroke and parking poses in order, reproduced by forward kinematics
+    let fkOk := fun (w : WP) (p : Iso Float) => posErr p (forwardC k w.joints) ≤ dT + 1e-9 && (angErr p (forwardC k w.joints)).abs ≤ aT + 1e-9
+    let origW := cart.filter (fun w => hasFlag w.flags flagLand || hasFlag w.flags flagTrace || hasFlag w.flags flagPark)
+    let wantOrig : List (Iso Float × Nat) := [(land, flagLand)] ++ steps.map (fun s => (s, flagTrace)) ++ [(park, flagPark)]
+    -- every landing/stroke/parking pose is realised, in order, by a waypoint carrying its flag (waypoints of an RRT
+    -- re-planning carry the flag of the pose they lead to, so the match is a subsequence)
+    let rec subseq : List WP → List (Iso Float × Nat) → Bool
+      | _, [] => true
+      | [], _ :: _ => false
+      | w :: ws, e :: es => if hasFlag w.flags e.2 && fkOk w e.1 then subseq ws es else subseq ws (e :: es)
+    let okOrder := subseq origW wantOrig
+    preds := preds ++ [P "C12.poses_in_order" (okOrder && (match wps.getLast? with | some w => hasFlag w.flags flagPark | none => false),
+      s!"landing/stroke/parking waypoints: flags {origW.map (·.flags)}; expected {wantOrig.map (·.2)} each reproducing its pose")]
+    preds := preds ++ [P "C12.interp_only_if_requested" (incl || wps.all (fun w => !(hasFlag w.flags flagLinInterp)), "interpolated waypoints returned although not requested")]
+    -- interpolated waypoints lie on the straight segment between the original poses around them
+    let rec onSeg : List WP → Option (Iso Float) → List (Iso Float) → Bool
+      | [], _, _ => true
+      | w :: rest, prev, remaining =>
+        if hasFlag w.flags flagLand || hasFlag w.flags flagTrace || hasFlag w.flags flagPark then
+          onSeg rest remaining.head? (remaining.drop 1)
+        else if hasFlag w.flags flagLinInterp then
+          match prev, remaining.head? with
+          | some a, some b =>
+            let p := (forwardC k w.joints).t
+            let ab := b.t.sub a.t
+            let l2 := ab.normSq
+            let tpar := if l2 > 0.0 then (V3.dot (p.sub a.t) ab) / l2 else 0.0
+            let foot := a.t.add (ab.scale tpar)
+            ((p.sub foot).norm ≤ 2e-6 && tpar ≥ -1e-5 && tpar ≤ 1.0 + 1e-5) && onSeg rest prev remaining
+          | _, _ => onSeg rest prev remaining
+        else onSeg rest prev remaining
+    let origPoses := wantOrig.map (·.1)
+    preds := preds ++ [P "C12.on_segment" (onSeg cart none origPoses, "a Cartesian waypoint is off the straight segment between the poses it interpolates")]
+    -- the Cartesian part recomputed by the model from the strategy (no RRT fallback): exact tie + cost bound
+    let mut corrOk := true
+    let mut tags := [s!"n={wps.length}", s!"pool={pool}", "ok"]
+    match cart.head? with
+    | some w0 =>
+      let ik := fun (pose : Iso Float) (prev : J6 Float) => k.inverseContinuing pose prev
+      match cartesianTrace cfg ik 0.5 (fun _ _ => none) poses [⟨w0.joints, flagLand⟩] with
+      | some tr =>
+        let tr' := if incl then tr else tr.filter (fun s => !(hasFlag s.flags flagLinInterp))
+        corrOk := closeList2 (fun (w : WP) (m : AJoints Float) => w.flags == m.flags && closeJ6 tolC w.joints m.joints) cart tr'
+        if incl then
+          let rec costOk : List WP → Bool
+            | a :: b :: rest => (transitionCosts a.joints b.joints coeff ≤ maxCost + 1e-9) && costOk (b :: rest)
+            | _ => true
+          preds := preds ++ [P "C12.transition_cost" (costOk cart, s!"consecutive Cartesian waypoints differ by more than the configured cost {maxCost}")]
+        tags := tags ++ ["no-rrt-fallback"]
+      | none => tags := tags ++ ["rrt-fallback"]
+    | none => pure ()
+    pure { corr := if corrOk then "OK" else "MISMATCH", detail := if corrOk then "" else "the Cartesian part of the plan differs from the model's recomputation from the landing solution",
+           preds := preds, tags := tags }
+
+/-- `plan_sched => #first #n outcomes…` -/
+def opPlanSched : RM Res := do
+  expect "=>"
+  let first ← rB
+  let os ← rList rB
+  pure { corr := "OK", preds := [P "C12.schedule" (os.all (· == first), s!"success of planning varies with the pool size / repetition: first {first}, others {os}")], tags := ["n=1"] }
 
 end Opw.Drv
